@@ -65,7 +65,9 @@ def observe_files(d, proto, multifile, tstart, rev):
             t = nc.variables["time"][:]
             units = nc.variables["time"].units
             ref = np.datetime64(units.split("since")[1].strip())
-            tabs = [int((ref + np.timedelta64(int(round(x)), "s") - rf.EPOCH) / np.timedelta64(1, "s")) for x in t]
+            # a record whose time was never written holds the fill value: reported as a record at an impossible time
+            tabs = [int((ref + np.timedelta64(int(round(x)), "s") - rf.EPOCH) / np.timedelta64(1, "s")) if abs(float(x)) < 1e15
+                    else 10**15 for x in t]
             steps = [((tstart - x) if rev else (x - tstart)) // DT for x in tabs]
             exact = all(((tstart - x) if rev else (x - tstart)) % DT == 0 for x in tabs)
             npart = len(nc.dimensions["particle"])
